@@ -62,15 +62,33 @@ class Ctx:
         self.avals = F("avals", Id, self.MapVal)  # its values
         self.deepcopy = F("deepcopy", Id, Id)
         self._card = F("card", self.SetId, I)
+        self._in_quant = 0
+        self._n = 0
         self.axioms = []  # globally valid facts (instances), added to every query
         self._seen_val = set()
         self._seen_card = set()
         self._keep = []  # keeps registered terms alive so z3 AST ids are not recycled
+        self._ops = {}
         self._in_quant = 0
         self._n = 0
         self.strs = {}
         if mode == "q":
             self.axioms.append(self._card(self.EMPTY) == 0)
+            # card of a one-point update (quantified copy; instances for ground terms come from card())
+            S_ = z3.Const("cs", self.SetId)
+            x_ = z3.Const("cx", Id)
+            t1 = self._card(z3.Store(S_, x_, z3.BoolVal(True)))
+            t0 = self._card(z3.Store(S_, x_, z3.BoolVal(False)))
+            self.axioms.append(z3.ForAll([S_, x_], t1 == self._card(S_) + z3.If(z3.Select(S_, x_), 0, 1), patterns=[t1]))
+            self.axioms.append(z3.ForAll([S_, x_], t0 == self._card(S_) - z3.If(z3.Select(S_, x_), 1, 0), patterns=[t0]))
+            self.axioms.append(z3.ForAll([S_], self._card(S_) >= 0, patterns=[self._card(S_)]))
+        # the type lattice of Vals, also for quantified ids (the per-term instances in val() cover
+        # the ground terms for the quantifier-free pruning tier)
+        self.axioms.append(self.forall(["id"], lambda x: z3.And(
+            z3.Implies(self.is_int(x), self.intlike(x)),
+            z3.Implies(self.intlike(x), z3.And(self.hashable(x), z3.Not(self.is_str(x)), z3.Not(self.iterable(x)), x != self.NONE,
+                                               z3.Not(self.is_tuple(x)), z3.Not(self.is_list(x)), z3.Not(self.is_dict(x)))),
+            z3.Implies(self.is_str(x), z3.And(self.hashable(x), x != self.NONE)))))
         self.axioms += [
             z3.Not(self.intlike(self.NONE)),
             z3.Not(self.is_int(self.NONE)),
@@ -140,9 +158,16 @@ class Ctx:
         A.append(z3.Implies(self.one_shot(t), z3.And(self.iterable(t), self.truthy(t), z3.Not(self.is_str(t)))))
         A.append(z3.Implies(t == self.NONE, z3.Not(self.truthy(t))))
         A.append(self.len_of(t) >= 0)
-        # a sized container has at least as many items as distinct elements
-        A.append(z3.Implies(z3.And(self.iterable(t), z3.Not(self.one_shot(t))), self.card(self.content(t)) <= self.len_of(t)))
         return t
+
+    def len_axiom(self, t):
+        """a sized container has at least as many items as distinct elements (instantiated where len() is taken)"""
+        key = ("len", t.get_id())
+        if key not in self._seen_val and not self._in_quant:
+            self._seen_val.add(key)
+            self._keep.append(t)
+            cc = self.card(self.content(t)) if self.mode == "g" else self._card(self.content(t))
+            self.axioms.append(z3.Implies(z3.And(self.iterable(t), z3.Not(self.one_shot(t))), z3.And(cc <= self.len_of(t), cc >= 0)))
 
     def of_int(self, i):
         """Val for the Python int denoted by Int term i."""
@@ -230,6 +255,26 @@ class Ctx:
                 b, x, v = s.arg(0), s.arg(1), s.arg(2)
                 self.axioms.append(self._card(s) == self.card(b) + z3.If(v, 1, 0) - z3.If(z3.Select(b, x), 1, 0))
         return self._card(s)
+
+    def set_op(self, kind, a, b):
+        """Executor-level set operation: the term is built once and its cardinality is related to its
+        operands (inclusion-exclusion), so len() of the result can be reasoned about."""
+        key = (kind, a.get_id(), b.get_id())
+        if key in self._ops:
+            return self._ops[key][0]
+        r = {"union": self.union, "inter": self.inter, "diff": self.diff}[kind](a, b)
+        self._ops[key] = (r, a, b)
+        if self.mode == "q" and not self._in_quant:
+            i = r if kind == "inter" else self.set_op("inter", a, b)
+            c = self._card
+            if kind == "union":
+                self.axioms.append(c(r) + c(i) == c(a) + c(b))
+            elif kind == "diff":
+                self.axioms.append(c(r) + c(i) == c(a))
+            else:
+                self.axioms += [c(r) <= c(a), c(r) <= c(b), c(r) >= 0, (c(r) == 0) == (r == self.EMPTY)]
+            self.axioms += [c(r) >= 0, (c(r) == 0) == (r == self.EMPTY)]
+        return r
 
     def card_union_axiom(self, a, b):
         """card(a|b) + card(a&b) == card(a) + card(b), instantiated on demand (mode q)."""
